@@ -574,6 +574,9 @@ class Gen(object):
         ch, r = self._pick_rec()
         if r is None:
             return None
+        if self.rng.random() < self.p.get("p_foreign_type", 0.0):
+            # a type in a user namespace, possibly one the container has never seen
+            return ["add_type", ["h", r[0]], self.name_spec(ch, {"qn": 3, "nsobj": 2})]
         return ["add_type", ["h", r[0]], ["qn", "prov", pools.PROV_URI, self.rng.choice(pools.PROV_TYPES)]]
 
     def g_copy(self):
